@@ -22,8 +22,16 @@ from props import c04_hist as H
 ID = "C04"
 RULE = ("exhaustive small universe (coefficients in {-1,0,1,2}, lb<=3, la<=3) plus random shapes of order 0..8 "
         "(zeros, +1/-1, a0 in {1,-1,other}, sparse high delays, leading-zero denominators, negative delays) built "
-        "from lists, dicts, z-expressions and the LinearFilter base class, with int / Fraction / dyadic-float "
-        "coefficients, memories None / list / finite and endless generator / callable, several zero values; "
+        "from lists, dicts, OrderedDicts, Poly objects, z-expressions, a filter cast and the LinearFilter base class, with "
+        "int / Fraction / dyadic-float coefficients, memories None / list / tuple / deque / iterator / finite and endless "
+        "generator / Stream / Stream subclass with its own __iter__ / callable (lambda, bound method; returning a list, the "
+        "same list, a tuple, a generator), inputs as list / tuple / deque / iterator / generator / Stream / Stream subclass, "
+        "several zero values; + long cases (orders 31..33, 63..65, 127..129, 255..257, 511..513: sparse and dense FIR, "
+        "feedback combs, both; inputs of 1000..5000 (thorough: ..10000) samples around 1024 / 2048 / 4096; exact integer / "
+        "Fraction arithmetic); + histories (c04_hist.py: 6-20 steps on shared objects: memory list / input list / "
+        "coefficient list or dict mutated by the caller between construction, call and consumption, one filter called "
+        "several times, equal filters of different coefficient types in both orders, several live streams consumed "
+        "interleaved in chunks, non-causal filters inside a history; every history runs in a freshly forked process); "
         "a case is non-trivial when the impl yields at least one sample or raises; distinct = distinct JSON case")
 TRUSTED = [
     "hand-written Lean model ALV/Model/C04.lean of LinearFilter.__init__/__call__ (modelled, not verified: Poly "
@@ -34,22 +42,40 @@ TRUSTED = [
     "(constant folding in exact Fractions); self-tested on seeded source edits (extra check) and cross-checked by "
     "the I/O differential on every case",
     "float regime: running rounding-error bound computed in exact arithmetic by the harness (u = 2^-52)",
+    "histories (ALV/Model/C04Hist.lean): modelled, not verified: `Poly(list|dict)` copies its argument, `iter(list)` reads "
+    "item `pos` of the list as it is when the item is requested and is exhausted for good once pos >= len(list), a "
+    "finished generator stays finished; a caller's in-place mutation is sent to Lean as the resulting contents "
+    "(computed on a mirror object that is never handed to the library); flavoured arguments (tuple / deque / copy "
+    "made by the caller) are sent as fresh anonymous lists. Inside Lean every step of every history is proved to be "
+    "answered as the property says (hist_model_eq_spec); that the REAL code keeps no other state is what the "
+    "histories test",
+    "history isolation (harness/props/c04_hist.py:_zygote_start): every history runs in a child forked from a zygote with "
+    "freshly imported audiolazy, so a failing history fails on pristine library state; a disagreeing single call is run "
+    "again in such a child and labelled state-dependent when it agrees there",
+    "long cases: the Lean driver does not execute the generated loop statement by statement (O(order^2) per sample) "
+    "but answers with specCall, equal to the model by theorem filterCall_eq_specCall; the generated source of every "
+    "long case is still compared structurally (T3)",
 ]
 ASSUMPTIONS = [
     "constant (non-Stream) coefficients with integer powers; time-varying coefficients are C06",
     "numbers are modelled as elements of a field (exact rationals in the driver); where the impl itself injects "
     "binary floats (Fraction coefficients formatted as 'p/q' into the exec'd source, int/int true division, float "
-    "coefficients) outputs are compared within a computed rounding-error bound",
+    "coefficients, a non-integer zero value of the all-zero filter) outputs are compared within a computed "
+    "rounding-error bound",
     "a memory shorter than the filter order is outside the property's quantifier; model and spec LEFT-pad it as "
     "coded and a deviation there is reported as a broken correspondence, not as a violated property",
+    "'input x' of a lazily consumed call is the sequence of items the input iterator delivers, one per output: an "
+    "input LIST changed by the caller while outputs are pending is read through python's list iterator (the memory, "
+    "the zero value and the coefficients are fixed at the call / at construction)",
 ]
 MANIFEST = {
     "technique": "Lean 4 refinement proof (generated loop IR = bounded shifting state machine = difference "
                  "equation over unbounded histories = the indexed sentence of the property, any field, all "
-                 "lengths; constructor arguments to outputs end to end) + translator tie T3 (captured source "
-                 "vs Lean compile, structural) + exact I/O differential",
-    "note": "26 theorems, no pending statement; D4 (Fraction gain formatted as '(expr) / p/q') recorded as known "
-            "with proposed_fixes/D4-fraction-gain.diff",
+                 "lengths; constructor arguments to outputs end to end; histories of lazily consumed streams over a "
+                 "heap of caller objects) + translator tie T3 (captured source vs Lean compile, structural) + exact "
+                 "I/O differential (single calls, long orders / inputs, histories in isolated processes)",
+    "note": "33 theorems, no pending statement; D4 (Fraction gain formatted as '(expr) / p/q') fixed in /repo "
+            "(2433df9), proposed_fixes/D4-fraction-gain.diff",
 }
 
 # ---------------------------------------------------------------------------------------------
@@ -355,6 +381,11 @@ def _xs_obj(xs, how):
 def impl(c):
     if c["entry"] == "hist":
         return H.impl(c)
+    return impl_call(c)
+
+
+def impl_call(c):
+    """one call on the real code, in this process"""
     import audiolazy.lazy_filters as lf
     captured = []
     orig = lf._exec_eval
@@ -489,9 +520,42 @@ def _outs_equal(c, got, want, drv_model):
     return None
 
 
+_ISO_BUDGET = [400]     # isolation re-runs of disagreeing call cases per process
+
+
+def _abbr(ir):
+    """IR for messages: long shift / summand lists are cut"""
+    if not isinstance(ir, dict):
+        return ir
+    d = dict(ir)
+    for f in ("shifts", "sum"):
+        if isinstance(d.get(f), list) and len(d[f]) > 8:
+            d[f] = d[f][:4] + ["… %d more …" % (len(d[f]) - 6)] + d[f][-2:]
+    return d
+
+
 def compare(c, io, drv):
     if c["entry"] == "hist":
         return H.compare(c, io, drv)
+    out = _compare_call(c, io, drv)
+    if out and not io.get("isolated") and _ISO_BUDGET[0] > 0:
+        _ISO_BUDGET[0] -= 1
+        # does the call fail on its own?  run it again as the only call of a process with freshly imported
+        # audiolazy: a disagreement that is gone there was produced by state that EARLIER cases of this run left
+        # in the library (caches, module globals) — still a violation (a call must not depend on earlier calls),
+        # but this case alone is not a witness of it; the histories are the self-contained witnesses
+        io2 = H.isolated(c)
+        if io2 is not None and "err" not in io2.get("_infra", {}):
+            out2 = _compare_call(c, io2, drv)
+            if not out2:
+                io["state_dependent"] = True
+                return [(k, "only after the earlier cases of this run (alone, in a fresh process, the call agrees): " + d)
+                        for k, d in out]
+            io["state_dependent"] = False
+    return out
+
+
+def _compare_call(c, io, drv):
     out = []
     model, spec = drv["model"], drv["spec"]
     if c.get("fast") and "out" not in model and "out" in spec:
@@ -522,8 +586,9 @@ def compare(c, io, drv):
             out.append(("model", "%s after __init__ is %r, model %r" % (name, got, want)))
     # --- T3: structure of the generated source ------------------------------------------------
     if io["ir"] != model["ir"]:
+        src = io.get("src") or ""
         out.append(("model", "generated source differs from compile: impl IR %r, model IR %r; source:\n%s" % (
-            io["ir"], model["ir"], io.get("src"))))
+            _abbr(io["ir"]), _abbr(model["ir"]), src if len(src) < 600 else src[:300] + "\n…\n" + src[-200:])))
     # --- I/O --------------------------------------------------------------------------------
     got = [dec(v) for v in io["out"]]
     d = _outs_equal(c, got, [dec(v) for v in model["out"]], model)
@@ -580,6 +645,8 @@ def _d4_prediction(c, model):
 def classify(c, io, drv):
     if c["entry"] == "hist":
         return H.classify(c, io, drv)
+    if io.get("state_dependent"):
+        return "call:state-left-by-earlier-cases-of-the-run"
     model, spec = drv.get("model", {}), drv.get("spec", {})
     if c.get("fast") and "out" not in model and "out" in spec:
         model = dict(model, out=spec["out"])
@@ -965,13 +1032,73 @@ def shrink(c):
         yield d
 
 
+BIGLIST = 12      # above this length a list is first shrunk in bulk (halves, all-equal), not item by item
+
+
+def _zero_like(v):
+    return "0/1" if isinstance(v, str) else ({"f": 0.0} if isinstance(v, dict) else 0)
+
+
+def _bulk_vals(vs):
+    """bulk simplifications of a long list of tagged numbers (same length)"""
+    n = len(vs)
+    if any(val(v) != 0 for v in vs[:n // 2]):
+        yield [_zero_like(v) for v in vs[:n // 2]] + vs[n // 2:]
+    if any(val(v) != 0 for v in vs[n // 2:]):
+        yield vs[:n // 2] + [_zero_like(v) for v in vs[n // 2:]]
+    if any(val(v) != 0 for v in vs[1:-1]):
+        yield vs[:1] + [_zero_like(v) for v in vs[1:-1]] + vs[-1:]
+    q = n // 4
+    if q and any(val(v) != 0 for v in vs[q:n - q]):
+        yield vs[:q] + [_zero_like(v) for v in vs[q:n - q]] + vs[n - q:]
+
+
+def _edge_items(n):
+    return range(n) if n <= BIGLIST else list(range(4)) + list(range(n - 4, n))
+
+
+def _retarget(c, side, nk):
+    """move the highest delay of one side down to nk (dict-like routes) / cut the list after delay nk (list-like
+    routes), cutting a given memory list to the new order so that it stays 'of sufficient length'"""
+    ps = c[side]
+    if c.get("route") in LIST_ROUTES:
+        d = dict(c, **{side: ps[:nk + 1]})
+    else:
+        j = max(range(len(ps)), key=lambda t: ps[t][0])
+        if any(q[0] == nk for q in ps):
+            return None
+        d = dict(c, **{side: [q for q in ps[:j] + [[nk, ps[j][1]]] + ps[j + 1:] if q[0] <= nk]})
+    m = c.get("mem")
+    if side == "den" and m is not None and "vals" in m:
+        lm = _lm_of(d["den"])
+        if len(m["vals"]) > lm:
+            d["mem"] = dict(m, vals=m["vals"][:lm])
+    return d
+
+
 def _shrink_rest(c):
+    # ---- large orders first: halve / decrement the highest delay of each side -----------------------------
+    for side in ("num", "den"):
+        ps = c[side]
+        ks = [k for k, v in ps]
+        if ks and max(ks) > 1:
+            k = max(ks)
+            for nk in sorted({k // 2, (3 * k) // 4, k - 1}):
+                if 0 < nk < k:
+                    d = _retarget(c, side, nk)
+                    if d is not None:
+                        yield d
     xs = c["xs"]
     if xs:
+        if len(xs) > BIGLIST:
+            yield dict(c, xs=xs[:len(xs) // 2])
+            yield dict(c, xs=xs[len(xs) // 2:])
+            for b in _bulk_vals(xs):
+                yield dict(c, xs=b)
         yield dict(c, xs=xs[:-1])
         yield dict(c, xs=xs[1:])
-        for i, x in enumerate(xs):
-            for s in _simplify_num(x)[:2]:
+        for i in _edge_items(len(xs)):
+            for s in _simplify_num(xs[i])[:2]:
                 yield dict(c, xs=xs[:i] + [s] + xs[i + 1:])
     if c.get("xs_as") == "iter":
         yield dict(c, xs_as="list")
@@ -982,23 +1109,41 @@ def _shrink_rest(c):
             if "vals" in m:
                 yield dict(c, mem={"kind": "iter", "vals": m["vals"], "as": "list"})
         if "vals" in m and m["vals"]:
-            yield dict(c, mem=dict(m, vals=m["vals"][:-1]))
-            for i, x in enumerate(m["vals"]):
-                for s in _simplify_num(x)[:2]:
-                    yield dict(c, mem=dict(m, vals=m["vals"][:i] + [s] + m["vals"][i + 1:]))
+            vs = m["vals"]
+            lm = _lm_of(c["den"])
+            if len(vs) > lm:
+                yield dict(c, mem=dict(m, vals=vs[:lm]))
+            if len(vs) > BIGLIST:
+                for b in _bulk_vals(vs):
+                    yield dict(c, mem=dict(m, vals=b))
+            yield dict(c, mem=dict(m, vals=vs[:-1]))
+            for i in _edge_items(len(vs)):
+                for s in _simplify_num(vs[i])[:2]:
+                    yield dict(c, mem=dict(m, vals=vs[:i] + [s] + vs[i + 1:]))
     if val(c["zero"]) != 0 or not isinstance(c["zero"], str):
         yield dict(c, zero="0/1")
     for side in ("num", "den"):
         ps = c[side]
-        for i in range(len(ps)):
+        listlike = c.get("route") in LIST_ROUTES
+        if len(ps) > BIGLIST:
+            if listlike:
+                for b in _bulk_vals([v for _, v in ps]):
+                    if side == "num" or val(b[0]) != 0:
+                        yield dict(c, **{side: [[k, v] for (k, _), v in zip(ps, b)]})
+            else:
+                srt = sorted(ps, key=lambda q: q[0])
+                yield dict(c, **{side: [srt[0], srt[-1]]})
+                yield dict(c, **{side: srt[:len(srt) // 2] + srt[-1:]})
+        for i in _edge_items(len(ps)):
             if side == "den" and len(ps) == 1:
                 break
-            if c.get("route") in LIST_ROUTES:
+            if listlike:
                 if i == len(ps) - 1:
                     yield dict(c, **{side: ps[:-1]})
             else:
                 yield dict(c, **{side: ps[:i] + ps[i + 1:]})
-        for i, (k, v) in enumerate(ps):
+        for i in _edge_items(len(ps)):
+            k, v = ps[i]
             for s in _simplify_num(v):
                 yield dict(c, **{side: ps[:i] + [[k, s]] + ps[i + 1:]})
     if c.get("route") in ("zexpr", "linear", "poly", "cast", "odict"):
@@ -1007,16 +1152,11 @@ def _shrink_rest(c):
         yield dict(c, mem=dict(c["mem"], ret="list"))
     if c.get("xs_as") not in ("list", "iter", None):
         yield dict(c, xs_as="list")
-    # large orders: move the highest delay down (dict-like routes), keeping it a case of the same kind
-    if c.get("route") not in LIST_ROUTES:
-        for side in ("num", "den"):
-            ps = c[side]
-            if ps:
-                j = max(range(len(ps)), key=lambda t: ps[t][0])
-                k = ps[j][0]
-                for nk in sorted({k // 2, k - 1}):
-                    if nk > 0 and nk != k and all(q[0] != nk for q in ps):
-                        yield dict(c, **{side: ps[:j] + [[nk, ps[j][1]]] + ps[j + 1:]})
+    if c.get("fast") and len(xs) <= 64 and all(k <= 16 for k, _ in c["num"] + c["den"]):
+        d = dict(c)
+        d.pop("fast", None)
+        d.pop("long", None)
+        yield d
 
 
 def neighbours(c):
